@@ -274,4 +274,26 @@ def pmtExample : Bytes :=
    0x1b, 0xe1, 0x00, 0xf0, 0x00,
    0x0f, 0xe1, 0x01, 0xf0, 0x06, 0x0a, 0x04, 0x65, 0x6e, 0x67, 0x00]
 
+/-! ## Readings and scope (review C)
+
+* **12-bit lengths.**  `program_info_length` (`pmtPil`) and `ES_info_length` (`esInfoLength`) are read
+  as full 12-bit `uimsbf` fields, as the code does.  The standard says the first two bits of each
+  "shall be '00'"; a value ≥ 1024 is therefore not rejected as such here (lenient reading) — it only
+  fails `specPmtAccept` / `streamFits` when that many bytes are not present.
+* **Tag table.**  `variantRanges` above was typed in from the doc comments of `CoreDescriptors`, so
+  `Ts.Props.C17.tag_variant_table` compares the code with its own documentation.  The comparison
+  with ISO/IEC 13818-1 Table 2-45 is `Ts.Props.C17.tag_table_iso13818_1`, `…_tail`, `…_ranges`,
+  whose table is written out in the theorem statements.  Known differences from later editions of
+  the standard: tag 1 is "forbidden" (2012 and later), tags 57 / 58 are VVC / EVC video
+  descriptors (2021 and later); the crate's variant for tag 36 is misspelt `MontentLabeling`.
+* **Not specified here because not modelled:** the `AudioType` classification of `audio_type`
+  (Table 2-60: 0x00 undefined, 0x01 clean effects, 0x02 hearing impaired, 0x03 visual impaired
+  commentary, 0x04–0x7F user private, 0x80–0xFF reserved — the crate labels all of 0x04..=0xFF
+  `Reserved`), the latin-1 decoding of `ISO_639_language_code`, and `FormatIdentifier`.
+  `LangItem.lang` keeps the raw bytes.
+* **Fuel.**  The model's iterators are fuel-bounded and return `.ok []` on exhaustion; the parsers in
+  this file are fuel-free (structural / well-founded recursion), and equality with them is what
+  carries termination.
+-/
+
 end Ts.Spec.TableSpec
